@@ -60,6 +60,10 @@ pub struct NodeCfg {
     /// (everything else it does follows the protocol)
     #[serde(default)]
     pub evil_static_pub: bool,
+    /// order of the builder calls: % 24 = permutation of (psks, local key, remote key, prologue);
+    /// bit 5: an empty prologue is not passed at all; bit 6: PSKs supplied in reverse order
+    #[serde(default)]
+    pub build_order: u8,
 }
 
 #[derive(Clone, Debug, Serialize, Deserialize)]
